@@ -4332,6 +4332,10 @@ class Macro:
                     pass
             if value.data not in allowed_types:
                 raise IllegalParseTree("Invalid argument type for argument " + argspec.name, value)
+            if argspec.kind in (MacroArgumentKind.MATCH, MacroArgumentKind.INTEXPR):
+                # The argument is only looked at inside the macro, where the macro's own parameters would shadow the caller's:
+                # replace what it says about the caller's match/expr arguments now.
+                value = parse_ctx._close_over_bound_arguments(value)
             if argspec.should_early_bind():
                 value = parse_ctx._lookup_named_entity(argspec.kind, value.children[0])
             bound_arguments[(argspec.get_lookup_type(), argspec.name)] = value
@@ -4414,6 +4418,21 @@ class ParseCtx:
 
         if isinstance(self.ast, ActionSourceNode):
             self.start_actions, self.ast = self.ast.adopt_actions_from()
+
+    def _close_over_bound_arguments(self, tree):
+        """
+        Return tree with every reference to a currently bound match/expr macro argument replaced by what that argument stands for.
+        """
+        if not isinstance(tree, lark.Tree):
+            return tree
+        if tree.data in ("identifier_const", "math_var") and len(tree.children) == 1:
+            try:
+                return self._lookup_named_entity(MacroArgumentKind.EXPR, tree.children[0])
+            except UndefinedReferenceError:
+                return tree
+        if not any(isinstance(child, lark.Tree) for child in tree.children):
+            return tree
+        return lark.Tree(tree.data, [self._close_over_bound_arguments(child) for child in tree.children], tree.meta)
 
     def _lookup_named_entity(self, context: Union[MacroArgumentKind, Iterable[MacroArgumentKind]], from_tree: lark.Token):
         assert from_tree.type == "IDENTIFIER"
